@@ -153,3 +153,24 @@ Theorem C03_prim_ops_spec : forall r, In r prim_ops -> r_class r = "write"%strin
     fl (run_w p k r a c) = Ok (sp p (annot v), c).
 Proof. exact prim_ops_spec. Qed.
 Print Assumptions C03_prim_ops_spec.
+
+(* the number formats in the specification's OWN terms (Proofs/NumSpecP.v).  Spec.v builds its encoder
+   from encode_var / zigzag / be_bytes, which the implementation model shares; here each format is a
+   closed form that does not mention them, and the shared functions are proved to meet it:
+   - ULEB128 [is_uleb n l]: sum (b_i mod 128) * 128^i = n, continuation bit on every byte but the last,
+     no trailing zero group; at most 10 bytes for a u64; and the closed form DETERMINES the bytes;
+   - zigzag: 2n / -2n-1, = (n << 1) ^ (n >> 63) on the i64 range, then ULEB128; unzigzag inverts it;
+   - fixed width: k bytes whose big-endian (little-endian: binary-LE) base-256 value is the two's
+     complement residue [twos k n] *)
+From PV Require Import Base.Varint Proofs.NumSpecP.
+Theorem C03_number_formats :
+  (forall n, 0 <= n < 2 ^ 64 -> is_uleb n (s_uv n) /\ (length (s_uv n) <= 10)%nat) /\
+  (forall l l' n, is_uleb n l -> is_uleb n l' -> l = l') /\
+  (forall n, - 2 ^ 63 <= n < 2 ^ 63 ->
+     (0 <= n -> zigzag n = 2 * n) /\ (n < 0 -> zigzag n = - 2 * n - 1) /\
+     zigzag n = Z.lxor (Z.shiftl n 1) (Z.shiftr n 63) /\ is_uleb (zigzag n) (s_zz n) /\ unzigzag (zigzag n) = n) /\
+  (forall k n, (0 < k)%nat -> in_s (8 * Z.of_nat k) n ->
+     length (s_i k (8 * Z.of_nat k) n) = k /\ be_value (s_i k (8 * Z.of_nat k) n) = twos k n /\
+     length (le_bytes k n) = k /\ le_value (le_bytes k n) = twos k n).
+Proof. exact number_formats. Qed.
+Print Assumptions C03_number_formats.
